@@ -320,6 +320,10 @@ func (r *Ref) guard(n *N, f func() interface{}) (v interface{}, err *EvalError) 
 
 func asInt(v interface{}) (int, bool) { i, ok := v.(int); return i, ok }
 
+// untypedNil: the literal nil is passed to an interface{} parameter as a nil
+// interface value.
+func untypedNil(v interface{}) interface{} { return v }
+
 func (r *Ref) method(n *N, recv interface{}, name string, nilsafe bool, args []interface{}) (interface{}, *EvalError) {
 	o, ok := recv.(*Obj)
 	if recv == nil {
@@ -332,6 +336,13 @@ func (r *Ref) method(n *N, recv interface{}, name string, nilsafe bool, args []i
 		// A typed nil receiver is outside the fragment (the generator does not
 		// produce it); treat as failure.
 		return nil, r.fail(n, "method %s of %T", name, recv)
+	}
+	if name == "Sel" {
+		if len(args) != 2 {
+			return nil, r.fail(n, "arity")
+		}
+		a0, a1 := untypedNil(args[0]), untypedNil(args[1])
+		return r.guard(n, func() interface{} { return o.Sel(a0, a1) })
 	}
 	if len(args) != 1 {
 		return nil, r.fail(n, "arity")
@@ -427,6 +438,12 @@ func (r *Ref) call(n *N, name string, args []interface{}) (interface{}, *EvalErr
 		return r.guard(n, func() interface{} { return e.CS(s) })
 	case "Va":
 		return r.guard(n, func() interface{} { return e.Va(args...) })
+	case "An":
+		if len(args) != 2 {
+			return nil, r.fail(n, "bad arguments to An")
+		}
+		a0, a1 := untypedNil(args[0]), untypedNil(args[1])
+		return r.guard(n, func() interface{} { return e.An(a0, a1) })
 	case "C64":
 		// Integer literals (and arithmetic on them) in an int64 parameter
 		// position denote int64 values.
